@@ -23,10 +23,17 @@ class Rig:
         self.nf_sleeping = False           # the pump is asleep in its not-found retry clause
         self.patches = []
 
+        self.suspend_on = set()            # event names at which the client's handler stays suspended until release()
+        self.suspended = []
+
         class Man(M.GeckoAsyncSpaMan):
             async def handle_event(self, event, **kw):
                 ssr = self.status_sensor
                 rig.deliveries.append((event.name, self.spa_state.name, self.facade is not None, ssr.state if ssr is not None else ""))
+                if event.name in rig.suspend_on:
+                    fut = loop.create_future()
+                    rig.suspended.append(fut)
+                    await fut
         kw = dict(spa_identifier="SPA01:02:03:04:05:06", spa_name="Spa", spa_address="10.0.0.1") if configured else {}
         self.man = Man("uuid", **kw)
 
@@ -81,6 +88,12 @@ class Rig:
         self._patch(M.GeckoAsyncSpa, "connect", connect)
         self._patch(M.GeckoAsyncSpa, "async_get_watercare", get_watercare)
         self._patch(M, "GeckoAsyncFacade", FakeFacade)
+
+    def release(self):
+        for f in self.suspended:
+            if not f.done():
+                f.set_result(True)
+        self.suspended = []
 
     def _patch(self, obj, name, val):
         self.patches.append((obj, name, getattr(obj, name)))
@@ -200,6 +213,45 @@ def run_trace(configured, labels):
             pump_alive = bool(pump) and not pump[0].done()
             await rig.close()
             return enter, out, pump_alive
+        finally:
+            rig.unpatch()
+    return vloop.run(main)
+
+
+def run_concurrent_teardown(e1, e2):
+    """CONNECTED; the client's handler suspends when it is told CLIENT_FACADE_TEARDOWN; e1 is raised by one task and, while that
+    handler is suspended, e2 by another.  Returns the deliveries and the final state."""
+    to_connected = [("Pump",), ("LocOutcome", True, False), ("LocOutcome", True, False)] + [("ConnOutcome", "next")] * 5
+
+    async def main(loop):
+        rig = Rig(loop, True)
+        try:
+            await rig.enter()
+            for l in to_connected:
+                await rig.apply(l)
+            if rig.man.spa_state.name != "CONNECTED":
+                return None
+            rig.deliveries.clear()
+            rig.suspend_on = {"CLIENT_FACADE_TEARDOWN"}
+            spa = rig.man._spa
+
+            def raise_(ev):
+                if ev == "UserReset":
+                    return loop.create_task(rig.man.async_reset())
+                return loop.create_task(spa._event_handler(getattr(rig.E, ev)))
+            t1 = raise_(e1)
+            await asyncio.sleep(0.05)
+            t2 = raise_(e2)
+            await asyncio.sleep(0.05)
+            rig.release()
+            await asyncio.sleep(0.05)
+            rig.release()
+            await asyncio.sleep(0.3)
+            rig.release()
+            out = (list(rig.deliveries), rig.man.spa_state.name)
+            rig.suspend_on = set()
+            await rig.close()
+            return out
         finally:
             rig.unpatch()
     return vloop.run(main)
